@@ -314,6 +314,40 @@ func (m *model) evalEl(n Node, cx mctx) ([]*hx.N, error) {
 }
 
 func (m *model) evalSlot(n Node, cx mctx) ([]*hx.N, error) {
+	if n.For != nil {
+		// v-for on the <slot> element: the slot is a loop of its own, filled once per item with
+		// that item's props (an empty list renders nothing, neither content nor fallback)
+		lv, err := cx.env.path(n.For.List)
+		if err != nil {
+			return nil, err
+		}
+		items, err := listOf(lv)
+		if err != nil {
+			return nil, err
+		}
+		m.st.add("v-for-on-the-slot-element")
+		if len(items) == 0 {
+			m.st.add("v-for-on-the-slot-element:empty-list")
+		}
+		one := n
+		one.For = nil
+		var out []*hx.N
+		for i, it := range items {
+			vars := map[string]any{n.For.Item: it}
+			if n.For.Idx != "" {
+				vars[n.For.Idx] = i
+			}
+			cx2 := cx
+			cx2.env = &menv{vars: vars, up: cx.env}
+			cx2.compLoop = true
+			r, err := m.evalSlot(one, cx2)
+			if err != nil {
+				return nil, err
+			}
+			out = append(out, r...)
+		}
+		return out, nil
+	}
 	props := map[string]any{}
 	optional := map[string]bool{}
 	for _, kv := range n.Bind {
